@@ -154,6 +154,8 @@ class MachO(BinFormat):
         f.seek(0)
         while lcsize < self.header.sizeofcmds:
             cmd = struct_load_command(f, offset)
+            if cmd.cmdsize < 8:
+                raise MachOError("bad load command size:\n%s" % cmd)
             data = f[offset : offset + cmd.cmdsize]
             offset += cmd.cmdsize
             lcsize += cmd.cmdsize
@@ -292,6 +294,8 @@ class MachO(BinFormat):
                 sz = elt.size()
             for n in range(count):
                 data = self.__file.read(sz)
+                if len(data) < sz:
+                    raise MachOError("truncated table")
                 tab.append(elt(data))
         return tab
 
@@ -374,6 +378,8 @@ class MachO(BinFormat):
             elif op == BIND_OPCODE_SET_SYMBOL_TRAILING_FLAGS_IMM:
                 r.flags = im
                 nulchar = raw.find(b"\0", cur)
+                if nulchar < 0:
+                    raise MachOError("unterminated symbol in bind opcodes")
                 if nulchar > cur:
                     r.symbol = raw[cur:nulchar]
                 cur = nulchar + 1
@@ -403,6 +409,8 @@ class MachO(BinFormat):
             elif op == BIND_OPCODE_DO_BIND_ULEB_TIMES_SKIPPING_ULEB:
                 count, cnt = read_uleb128(raw[cur:])
                 skip, cnt2 = read_uleb128(raw[cur + cnt :])
+                if count > 0x100000:
+                    raise MachOError("bind count too large")
                 for i in range(count):
                     L.append(r.as_list())
                     r.seg_offset += skip + l
